@@ -29,37 +29,28 @@ import (
 	"strings"
 )
 
-func init() { generators = append(generators, genRoutesGuarded) }
+func init() { generators = append(generators, genRoutes) }
 
-// A shape this translator does not understand must keep C02 from going green, but coq/Gen is
-// shared by every property: instead of aborting the whole gen run (which would turn every other
-// property's check red too), the failure is written into Gen/Routes.v as a definition that does
-// not type-check, so that exactly the proof closures that import it stop building.  With
-// VERIF_GEN_STRICT=1 the run exits 2 as the other translators do.
-type routesError string
+// rfail: a shape this translator does not understand.  harness/cmd/gen isolates every generator:
+// Gen/Routes.v is then not produced and exactly the closures that import it stop building.
+func rfail(f string, a ...interface{}) { fail(f, a...) }
 
-func rfail(f string, a ...interface{}) { panic(routesError(fmt.Sprintf(f, a...))) }
-
-func genRoutesGuarded() {
+// safeGate: a refusal condition that is not understood does not abort the translation; the
+// selector is recorded with the single atom AUnknown, which the model evaluates to "does not
+// refuse".  Every theorem about a refusal then fails, while the run checkers still build, so the
+// search for a concrete violating request can go on against the changed source.
+func safeGate(p *pkgInfo, name string, selector bool) (gi gateInfo) {
 	defer func() {
-		e := recover()
-		if e == nil {
-			return
+		if e := recover(); e != nil {
+			gf, is := e.(genFailure)
+			if !is {
+				panic(e)
+			}
+			fmt.Fprintf(os.Stderr, "gen: routes: %s (recorded as AUnknown)\n", gf.msg)
+			gi = gateInfo{Name: name, Atoms: []string{"(AUnknown " + routesCoqStr(gf.msg) + ")"}, Shortcuts: map[string][]string{}, Unknown: true}
 		}
-		msg, ok := e.(routesError)
-		if !ok {
-			panic(e)
-		}
-		fmt.Fprintf(os.Stderr, "gen: routes: %s\n", string(msg))
-		if os.Getenv("VERIF_GEN_STRICT") != "" {
-			os.Exit(2)
-		}
-		poison := "(* GENERATED by harness/cmd/gen (gen_routes.go): THE TRANSLATOR DID NOT UNDERSTAND THE SOURCE.\n   " +
-			strings.ReplaceAll(string(msg), "*)", "* )") + " *)\nFrom Coq Require Import String.\n" +
-			"Definition routes_translator_failed : False := " + routesCoqStr("gen_routes: "+string(msg)) + "%string.\n"
-		writeIfChanged(filepath.Join(*out, "Routes.v"), poison)
 	}()
-	genRoutes()
+	return gateOf(p, name, selector)
 }
 
 // ---------- small AST helpers ----------
@@ -324,6 +315,7 @@ func handlerBody(p *pkgInfo, name string) (*ast.FuncDecl, []ast.Stmt) {
 }
 
 type gateInfo struct {
+	Unknown   bool
 	Name      string
 	Atoms     []string
 	Shortcuts map[string][]string // instanceSelector: keyword -> methods of the early-return block
@@ -1197,14 +1189,14 @@ func genRoutes() {
 	routes, uses, mounts := extractRoutes(srv)
 	checkAdminPriv(srv)
 	gates := []gateInfo{
-		gateOf(srv, "repoRawSelector", true),
-		gateOf(srv, "repoSelector", true),
-		gateOf(srv, "nodeSelector", true),
-		gateOf(srv, "instanceSelector", true),
-		gateOf(srv, "reposPostHandler", false),
-		gateOf(srv, "repoPostInfoHandler", false),
-		gateOf(srv, "repoNewDataHandler", false),
-		gateOf(srv, "repoCommitHandler", false),
+		safeGate(srv, "repoRawSelector", true),
+		safeGate(srv, "repoSelector", true),
+		safeGate(srv, "nodeSelector", true),
+		safeGate(srv, "instanceSelector", true),
+		safeGate(srv, "reposPostHandler", false),
+		safeGate(srv, "repoPostInfoHandler", false),
+		safeGate(srv, "repoNewDataHandler", false),
+		safeGate(srv, "repoCommitHandler", false),
 	}
 	// every other middleware / handler must not mention the mode variables at all
 	gated := map[string]bool{}
@@ -1278,7 +1270,7 @@ func genRoutes() {
 	b.WriteString("].\n\n")
 	for _, g := range gates {
 		if g.Name == "nodeSelector" {
-			if len(g.Branch) == 0 {
+			if len(g.Branch) == 0 && !g.Unknown {
 				rfail("server: nodeSelector branch whitelist not found")
 			}
 			fmt.Fprintf(&b, "(* nodeSelector: actions with branchRequest = true *)\nDefinition node_branch_actions : list string := %s.\n\n", coqStrList(g.Branch))
